@@ -8,7 +8,8 @@ From Coq Require Import List ZArith String.
 From AGH Require Import Model.Migrate Proofs.Migrate Proofs.MigrateFrame Proofs.MigrateSim
   Proofs.MigrateTable Gen.MigrateTable Proofs.MigrateFrameDns Proofs.MigrateElems
   Model.MigrateLoad Proofs.MigrateLoadable Proofs.MigrateLoadableC Proofs.MigrateLoadableH Proofs.MigrateBack
-  Model.MigrateKinds Proofs.MigrateKinds Model.MigrateFootprint Proofs.MigrateFootprint Proofs.MigrateValues.
+  Model.MigrateKinds Proofs.MigrateKinds Model.MigrateFootprint Proofs.MigrateFootprint Proofs.MigrateValues
+  Model.MigrateFile Proofs.MigrateFile.
 Import ListNotations.
 Local Open Scope string_scope.
 Local Open Scope Z_scope.
@@ -541,3 +542,104 @@ Example C13_values_defined :
   f21 (Some (VStr "x")) = None.
 Proof. exact values_defined. Qed.
 Print Assumptions C13_values_defined.
+
+(** ** Round 5: the caller of [Migrate] and the FILE ([home.parseConfig]:
+    read, upgrade, atomic write-back, load; a fault possible at each step).
+    [wr]: an attempted write-back succeeds; [accepts]: the loader's verdict. *)
+
+(** The either/or of the property, about the file.  A nil return: the file
+    holds a document stamped with the current version and that document is
+    what was loaded.  An error of reading, upgrading or writing back: the file
+    is what it was.  An error of the loader: the file is what it was, or it
+    holds the upgraded document, stamped current, which the loader refused.
+    Never a panic. *)
+Theorem C13_parse_config_either_or : forall O accepts f wr r w,
+  parse_config O accepts f wr = (r, w) -> either_or accepts f r w.
+Proof. exact parse_config_either_or. Qed.
+Print Assumptions C13_parse_config_either_or.
+
+Theorem C13_parse_config_no_panic : forall O accepts f wr, fst (parse_config O accepts f wr) <> PPanic.
+Proof. exact parse_config_no_panic. Qed.
+Print Assumptions C13_parse_config_no_panic.
+
+(** Success in detail: loaded = file, stamped current, accepted by the loader;
+    after an upgrade the written body is the loaded one and carries the stamp
+    as an integer; without an upgrade nothing is written. *)
+Theorem C13_parse_config_success : forall O accepts f wr m up w,
+  parse_config O accepts f wr = (PLoaded m up, w) ->
+  stamped_current (file_after f w) m /\ accepts m = true /\
+  (if up then w = Some m /\ get "schema_version" m = Some (VInt last_version) else w = None).
+Proof. exact parse_config_success. Qed.
+Print Assumptions C13_parse_config_success.
+
+(** When the loader accepts what the upgrade of this file produces (the
+    conclusion of [C13_output_loadable] for inputs valid under their own
+    schema), EVERY error leaves the file as it was. *)
+Theorem C13_parse_config_error_keeps_file : forall O accepts f wr r w,
+  upgrade_acceptable O accepts f ->
+  parse_config O accepts f wr = (r, w) -> is_error r = true -> w = None /\ file_after f w = f.
+Proof. exact parse_config_error_keeps_file. Qed.
+Print Assumptions C13_parse_config_error_keeps_file.
+
+(** Idempotence at the level of the file: the start after a successful one
+    finds nothing to upgrade and writes nothing, whatever the write outcome
+    would be. *)
+Theorem C13_parse_config_second_run_noop : forall O accepts f wr m up w,
+  parse_config O accepts f wr = (PLoaded m up, w) ->
+  forall wr2, parse_config O accepts (file_after f w) wr2 = (PLoaded m false, None).
+Proof. exact parse_config_second_run_noop. Qed.
+Print Assumptions C13_parse_config_second_run_noop.
+
+Theorem C13_parse_twice_after_success : forall O accepts f wr1 wr2 m up w,
+  parse_config O accepts f wr1 = (PLoaded m up, w) ->
+  parse_twice O accepts f wr1 wr2 = (PLoaded m up, PLoaded m false, file_after f w).
+Proof. exact parse_twice_after_success. Qed.
+Print Assumptions C13_parse_twice_after_success.
+
+(** A start that failed on the write-back leaves the next start what a
+    fault-free start finds; and the write outcome is consulted only when an
+    upgrade is needed. *)
+Theorem C13_parse_config_retry : forall O accepts f w,
+  parse_config O accepts f false = (PWriteErr, w) ->
+  parse_config O accepts (file_after f w) true = parse_config O accepts f true.
+Proof. exact parse_config_retry. Qed.
+Print Assumptions C13_parse_config_retry.
+
+Theorem C13_parse_config_fault_irrelevant : forall O accepts f,
+  (forall top m', f = FDoc top -> migrate O top last_version <> ONew m') ->
+  parse_config O accepts f false = parse_config O accepts f true.
+Proof. exact parse_config_fault_irrelevant. Qed.
+Print Assumptions C13_parse_config_fault_irrelevant.
+
+(** Premises satisfiable: every outcome has a concrete instance. *)
+Example C13_parse_config_outcomes :
+  (exists b, parse_config oracles0 accept_all (FDoc (Some doc22)) true = (PLoaded b true, Some b) /\
+             get "schema_version" b = Some (VInt 29) /\ doc_version doc22 = 22) /\
+  parse_config oracles0 accept_all (FDoc (Some doc22)) false = (PWriteErr, None) /\
+  (exists b, parse_config oracles0 accept_none (FDoc (Some doc22)) true = (PLoadErr, Some b) /\ doc_version b = 29) /\
+  parse_config oracles0 accept_all (FDoc (Some [("schema_version", VInt 29)])) false
+    = (PLoaded [("schema_version", VInt 29)] false, None) /\
+  parse_config oracles0 accept_all FUnreadable true = (PReadErr, None) /\
+  parse_config oracles0 accept_all FGarbage true = (PMigrateErr, None).
+Proof. exact parse_outcomes. Qed.
+Print Assumptions C13_parse_config_outcomes.
+
+(** REFUTED variant (seeded change C13-J): a failed write-back that is only
+    logged.  Witness: the version-22 document [doc22], the write fails: a nil
+    return with a version-29 document loaded, the file still version 22, and
+    the next start upgrades again. *)
+Theorem C13_swallowed_write_error_refuted : swallow_breaks_either_or.
+Proof. exact swallowed_write_error_refuted. Qed.
+Print Assumptions C13_swallowed_write_error_refuted.
+
+Theorem C13_swallow_not_either_or :
+  ~ (forall O accepts f wr r w, parse_config_swallow O accepts f wr = (r, w) -> either_or accepts f r w).
+Proof. exact swallow_not_either_or. Qed.
+Print Assumptions C13_swallow_not_either_or.
+
+(** ... while without a fault it is the same function, which is why no
+    fault-free run tells the two apart. *)
+Theorem C13_swallow_same_without_fault : forall O accepts f,
+  parse_config_swallow O accepts f true = parse_config O accepts f true.
+Proof. exact swallow_same_without_fault. Qed.
+Print Assumptions C13_swallow_same_without_fault.
